@@ -180,4 +180,32 @@ example :
 
 end proc
 
+
+section snapshot
+variable {D F R : Type} (Fit : Params → D → Bool → F) (Read : F → D → R)
+
+def noFit : List (Op D) → Bool
+  | [] => true
+  | .fit _ :: _ => false
+  | _ :: rest => noFit rest
+
+/-- **the fitted state is a snapshot**: whatever happens after a fit short of another fit - parameters edited through
+`set_params` (nested names, replaced steps), reads, clones, stop requests - leaves the fitted state exactly as the fit
+left it … -/
+theorem C15_fitted_snapshot (w : World F) (h : List (Op D)) (hn : noFit h = true) :
+    (run Fit Read w h).fitted = w.fitted := by
+  induction h generalizing w with
+  | nil => rfl
+  | cons op rest ih =>
+    cases op <;> simp_all [run, step, noFit]
+
+/-- … so every read-only call (`transform`, `lift*`, `retract*`, `predict*`, feature names) answers after those edits
+what it answered before them -/
+theorem C15_reads_after_edits (w : World F) (h : List (Op D)) (hn : noFit h = true) (x : D) :
+    (step Fit Read (run Fit Read w h) (.read x)).2 = (step Fit Read w (.read x)).2 := by
+  simp only [step, C15_fitted_snapshot Fit Read w h hn]
+
+example : noFit ([.setParam "dl__n_delays_state" 4, .read (0 : Nat), .clone] : List (Op Nat)) = true := rfl
+end snapshot
+
 end Pk.C15
